@@ -287,7 +287,7 @@ class Run:
 
     # --- differential run over independent sequences
     def differential(self, name, seqs, classify=None, spec=True, impl_args=("run",), shrink=True, nontrivial=None,
-                     canon=None, env=None):
+                     canon=None, env=None, spec_canon=None):
         """seqs: list of sequences (list of op lines); each sequence is self-contained.
         Compares implementation with S (the property oracle) and with M (the correspondence)."""
         zkh = self.harness()
@@ -302,10 +302,12 @@ class Run:
         model = run_lean("model", flat)
         specl = run_lean("spec", flat) if spec else model
         if canon:
-            impl = [canon(x) for x in impl]
+            impl = [canon(l, x) for l, x in zip(flat, impl)]
+        self._last = {"flat": flat, "impl": impl, "model": model, "spec": specl}
+        sc = spec_canon or (lambda line, x: x)
         per = {}
         for k, (si, li) in enumerate(owner):
-            per.setdefault(si, []).append((flat[k], impl[k], model[k], specl[k]))
+            per.setdefault(si, []).append((flat[k], impl[k], model[k], specl[k], sc(flat[k], impl[k])))
         stats = {"sequences": len(seqs), "ops": len(flat), "impl_vs_spec": 0, "impl_vs_model": 0, "known": 0}
         for si, rows in per.items():
             seq = [r[0] for r in rows]
@@ -314,7 +316,7 @@ class Run:
             for r in rows:
                 self.hist(f"{name}:op:{r[0].split(' ')[0]}")
                 self.hist(f"{name}:impl:{'err' if r[1] == 'err' else 'panic' if r[1] in ('panic', 'abort') else 'ok'}")
-            bad_spec = next((i for i, r in enumerate(rows) if "n/a" not in (r[1], r[3]) and r[1] != r[3]), None)
+            bad_spec = next((i for i, r in enumerate(rows) if "n/a" not in (r[4], r[3]) and r[4] != r[3]), None)
             bad_model = next((i for i, r in enumerate(rows) if r[1] != "n/a" and r[1] != r[2]), None)
             if bad_spec is not None:
                 fid = classify(seq, bad_spec, rows[bad_spec][1], rows[bad_spec][3]) if classify else None
@@ -325,7 +327,7 @@ class Run:
                 stats["impl_vs_spec"] += 1
                 self.cov["impl_vs_spec_failures"] += 1
                 if len([v for v in self.violations if not v.get("no_input")]) < 3:
-                    small = self.shrink(seq, classify, impl_args, env, canon) if shrink else seq
+                    small = self.shrink(seq, classify, impl_args, env, canon, spec_canon) if shrink else seq
                     self.report_input(name, small)
             elif bad_model is not None:
                 stats["impl_vs_model"] += 1
@@ -340,10 +342,12 @@ class Run:
             self.sample({"stream": name, "ops": seqs[k][:8], "impl": [r[1][:90] for r in per[k]][:8]})
         return stats
 
-    def fails(self, seq, classify, impl_args, env, canon):
+    def fails(self, seq, classify, impl_args, env, canon, spec_canon=None):
         impl = run_impl(self.zkh, seq, impl_args, env=env)
         if canon:
-            impl = [canon(x) for x in impl]
+            impl = [canon(l, x) for l, x in zip(seq, impl)]
+        if spec_canon:
+            impl = [spec_canon(l, x) for l, x in zip(seq, impl)]
         specl = run_lean("spec", seq)
         for i, (a, b) in enumerate(zip(impl, specl)):
             if "n/a" not in (a, b) and a != b:
@@ -352,9 +356,9 @@ class Run:
                 return i
         return None
 
-    def shrink(self, seq, classify, impl_args, env, canon, budget=60):
+    def shrink(self, seq, classify, impl_args, env, canon, spec_canon=None, budget=60):
         cur = list(seq)
-        i = self.fails(cur, classify, impl_args, env, canon)
+        i = self.fails(cur, classify, impl_args, env, canon, spec_canon)
         if i is None:
             return seq
         cur = cur[: i + 1]
@@ -365,7 +369,7 @@ class Run:
             for k in range(len(cur) - 2, 0, -1):
                 cand = cur[:k] + cur[k + 1:]
                 budget -= 1
-                j = self.fails(cand, classify, impl_args, env, canon)
+                j = self.fails(cand, classify, impl_args, env, canon, spec_canon)
                 if j is not None:
                     cur = cand[: j + 1]
                     changed = True
